@@ -317,8 +317,25 @@ func checkC06Clamps(c *Ctx) {
 		})
 		// and nothing that can move the cursor after it
 		after := false
+		isCheck := func(in ssa.Instruction) bool {
+			return isCallTo(in, "(*core.Cursor).CheckCommand", "(*core.Cursor).CheckAppend")
+		}
 		eachInstr(EX, func(in ssa.Instruction) {
-			if isCallTo(in, "(*core.Cursor).CheckCommand", "(*core.Cursor).CheckAppend") {
+			// the check itself, or the call of an unexported helper that ends in it on every path
+			wrapper := false
+			if cl, isCl := in.(*ssa.Call); isCl && !isCheck(in) {
+				if h := cl.Call.StaticCallee(); h != nil && inRepo(h) && isPrivateHelper(h) && len(h.Blocks) > 0 {
+					wrapper = len(callsTo(h, false, "(*core.Cursor).CheckCommand", "(*core.Cursor).CheckAppend")) > 0 && pathAvoiding(h, nil, isReturn, isCheck) == nil
+					if wrapper {
+						eachInstr(h, func(hin ssa.Instruction) {
+							if isCheck(hin) && pathAvoiding(h, hin, func(x ssa.Instruction) bool { _, isCall := x.(ssa.CallInstruction); return isCall }, nil) != nil {
+								after = true
+							}
+						})
+					}
+				}
+			}
+			if isCheck(in) || wrapper {
 				if w := pathAvoiding(EX, in, func(x ssa.Instruction) bool {
 					_, isCall := x.(ssa.CallInstruction)
 					return isCall
@@ -328,9 +345,19 @@ func checkC06Clamps(c *Ctx) {
 			}
 		})
 		r.Check(ok && !after, "C06.post-check", fnName(EX)+":cursor-check", p.Pos(EX.Pos()), "cursor check is the last call on every path", "a path through execute returns without the post-command cursor check (or runs code after it): the cursor can be left outside the buffer")
-		// vi command modes use CheckCommand
+		// vi command modes use CheckCommand (looked for in execute, or in the unexported helper
+		// of execute that holds the check)
 		bf := blockFacts(EX)
-		for _, call := range callsTo(EX, false, "(*core.Cursor).CheckCommand") {
+		host := EX
+		if len(callsTo(EX, false, "(*core.Cursor).CheckCommand")) == 0 {
+			for _, cl := range allCalls(EX, false) {
+				if h := staticCallee(cl); h != nil && inRepo(h) && isPrivateHelper(h) && len(callsTo(h, false, "(*core.Cursor).CheckCommand")) > 0 {
+					host = h
+				}
+			}
+		}
+		r.Rule("C06.post-check-modes", "K5", "CheckCommand (cursor on a character) is applied exactly for the vi command keymaps", 1)
+		for _, call := range callsTo(host, false, "(*core.Cursor).CheckCommand") {
 			modes := map[string]bool{}
 			// the block is reached from edges mode == const
 			for _, pb := range call.Block().Preds {
@@ -350,7 +377,6 @@ func checkC06Clamps(c *Ctx) {
 					good = false
 				}
 			}
-			r.Rule("C06.post-check-modes", "K5", "CheckCommand (cursor on a character) is applied exactly for the vi command keymaps", 1)
 			r.Check(good && len(modes) == len(want), "C06.post-check-modes", fnName(EX)+":CheckCommand-modes", p.IPos(call), "vi-command, vi-move, vi", fmt.Sprintf("CheckCommand is selected for keymaps %v, expected exactly %v", keysOf(modes), want))
 		}
 	} else {
